@@ -12,7 +12,7 @@ import types
 import z3
 
 from . import extract, solve
-from .sym import (V, VInt, VBool, VStr, VBytes, VFloat, VNone, NONE, VTuple, VList, VSeq, VMap,
+from .sym import (V, VInt, VBool, VStr, VBytes, VFloat, VNone, NONE, VTuple, VList, VSeq, VMap, VSet,
                   VDictLit, VConc, VInst, VOpaque, VFunc, VBoundExt, VUnion, VUnknown,
                   lift, concrete_of, zand, zor, znot, mk_str)
 
@@ -236,6 +236,8 @@ class Exec(object):
             return z3.BoolVal(len(path.heap[('dict', v.did)]) > 0)
         if isinstance(v, VSeq):
             return z3.Length(v.t) > 0
+        if isinstance(v, VSet):
+            return v.n > 0
         if isinstance(v, VMap):
             if v.keys is not None:
                 return z3.Length(v.keys.t) > 0
@@ -285,6 +287,8 @@ class Exec(object):
                 return z3.BoolVal(False)
             return zand(*[self.eq_term(path, x, y) for x, y in zip(ia, ib)])
         if isinstance(a, VSeq):
+            return a.t == b.t
+        if isinstance(a, VSet):
             return a.t == b.t
         if isinstance(a, VFunc):
             return z3.BoolVal(a.node is b.node and a.bound is b.bound)
@@ -354,6 +358,9 @@ class Exec(object):
                 elif isinstance(v, VSeq):
                     v = VSeq(v.t, v.elem)
                     v.origin = key
+                elif isinstance(v, VSet):
+                    v = VSet(v.t, v.n)
+                    v.origin = key
                 return v
             raise_unbound = True
             return Raise(self.mk_exc(path, UnboundLocalError, name))
@@ -363,6 +370,12 @@ class Exec(object):
                 v = path.heap[key]
                 if isinstance(v, VUnion):
                     v = VUnion(v.alts)
+                    v.origin = key
+                elif isinstance(v, VSeq):
+                    v = VSeq(v.t, v.elem)
+                    v.origin = key
+                elif isinstance(v, VSet):
+                    v = VSet(v.t, v.n)
                     v.origin = key
                 return v
         # module globals
@@ -473,7 +486,7 @@ class Exec(object):
             if r is None:
                 raise Unsupported('attribute %s of opaque %s' % (name, obj.kind))
             return r
-        if isinstance(obj, (VStr, VBytes, VList, VSeq, VMap, VDictLit, VTuple, VInt)):
+        if isinstance(obj, (VStr, VBytes, VList, VSeq, VMap, VSet, VDictLit, VTuple, VInt)):
             return [(path, VBoundExt(obj, name))]
         if isinstance(obj, VFunc):
             if name == '__name__':
@@ -481,6 +494,9 @@ class Exec(object):
             raise Unsupported('attribute %s of function' % name)
         if isinstance(obj, VNone):
             return self.raise_(path, AttributeError, name)
+        r = self.models.value_attr(self, path, obj, name)
+        if r is not None:
+            return r
         raise Unsupported('getattr %s on %r' % (name, obj))
 
     def bind_class_attr(self, path, obj, cls, name, raw):
@@ -513,6 +529,9 @@ class Exec(object):
                 return hook
             path.heap[('f', self.oid_of(obj), name)] = v
             return [(path, NONE)]
+        hook = self.models.setattr_hook(self, path, obj, name, v)
+        if hook is not None:
+            return hook
         raise Unsupported('setattr on %r' % (obj,))
 
     # ------------------------------------------------------------------ expressions
@@ -735,7 +754,37 @@ class Exec(object):
             return None
         return l.func.value, c, isinstance(node.ops[0], ast.NotEq)
 
+    def _case_eq_pattern(self, node):
+        """x.upper() == 'CONST' / x.lower() == 'const' (or !=) -> (x_node, const, negate)"""
+        if len(node.ops) != 1 or not isinstance(node.ops[0], (ast.Eq, ast.NotEq)):
+            return None
+        l, r = node.left, node.comparators[0]
+        if isinstance(r, ast.Call) and isinstance(l, ast.Constant):
+            l, r = r, l
+        if not (isinstance(l, ast.Call) and isinstance(l.func, ast.Attribute) and l.func.attr in ('upper', 'lower')
+                and not l.args and not l.keywords and isinstance(r, ast.Constant) and isinstance(r.value, str)):
+            return None
+        return l.func.value, r.value, l.func.attr, isinstance(node.ops[0], ast.NotEq)
+
     def e_Compare(self, node, path, fr):
+        cpat = self._case_eq_pattern(node)
+        if cpat is not None:
+            xnode, const, which, neg = cpat
+            out = []
+            for p, v in self.eval(xnode, path, fr):
+                if isinstance(v, Raise):
+                    out.append((p, v))
+                elif isinstance(v, VStr):
+                    if getattr(const, which)() != const:
+                        t = z3.BoolVal(False)      # x.upper() can never equal a string with lower-case letters
+                    else:
+                        self.models.assumptions.add('x.upper()/x.lower() compared with an ASCII constant: exact for ASCII x '
+                                                    '(non-ASCII letters whose case mapping is ASCII, e.g. U+212A, are outside the domain)')
+                        t = z3.InRe(v.t, ci_regex(const))
+                    out.append((p, VBool(z3.simplify(znot(t) if neg else t))))
+                else:
+                    return self._compare_general(node, path, fr)
+            return out
         pat = self._strip_eq_pattern(node)
         if pat is not None:
             from .models import re_ws
@@ -831,6 +880,10 @@ class Exec(object):
         if isinstance(c, (VTuple, VList)):
             items = c.items if isinstance(c, VTuple) else self.list_items(path, c)
             return [(path, zor(*[self.eq_term(path, item, x) for x in items]))]
+        if isinstance(c, VSet):
+            if isinstance(item, VStr):
+                return [(path, z3.Select(c.t, item.t))]
+            return [(path, z3.BoolVal(False))]
         if isinstance(c, VStr) and isinstance(item, VStr):
             return [(path, z3.Contains(c.t, item.t))]
         if isinstance(c, VBytes) and isinstance(item, VBytes):
@@ -1164,7 +1217,39 @@ class Exec(object):
             return [lift(x) for x in c] if isinstance(c, str) else [lift(x) for x in c]
         raise Unsupported('iteration over %r needs a loop invariant' % (it,))
 
+    def _case_startswith_pattern(self, node):
+        f = node.func
+        if not (isinstance(f, ast.Attribute) and f.attr == 'startswith' and len(node.args) == 1 and not node.keywords
+                and isinstance(node.args[0], ast.Constant) and isinstance(node.args[0].value, str)):
+            return None
+        inner = f.value
+        if not (isinstance(inner, ast.Call) and isinstance(inner.func, ast.Attribute) and inner.func.attr in ('lower', 'upper')
+                and not inner.args and not inner.keywords):
+            return None
+        return inner.func.value, node.args[0].value, inner.func.attr
+
     def e_Call(self, node, path, fr):
+        cs = self._case_startswith_pattern(node)
+        if cs is not None:
+            xnode, const, which = cs
+            res = []
+            handled = True
+            for p, v in self.eval(xnode, path, fr):
+                if isinstance(v, Raise):
+                    res.append((p, v))
+                elif isinstance(v, VStr):
+                    if getattr(const, which)() != const:
+                        t = z3.BoolVal(False)
+                    else:
+                        self.models.assumptions.add('x.upper()/x.lower() compared with an ASCII constant: exact for ASCII x '
+                                                    '(non-ASCII letters whose case mapping is ASCII, e.g. U+212A, are outside the domain)')
+                        t = z3.InRe(v.t, z3.Concat(ci_regex(const), z3.Full(z3.ReSort(z3.StringSort()))))
+                    res.append((p, VBool(z3.simplify(t))))
+                else:
+                    handled = False
+                    break
+            if handled:
+                return res
         out = []
         for p, f in self.eval(node.func, path, fr):
             if isinstance(f, Raise):
@@ -1860,6 +1945,19 @@ class Exec(object):
                                 out.append((p3, flow, v))
             states = nxt
         return out
+
+
+def ci_regex(const):
+    """regex matching `const` case-insensitively (ASCII letters)"""
+    parts = []
+    for c in const:
+        if c.isalpha() and c.isascii():
+            parts.append(z3.Union(z3.Re(mk_str(c.lower())), z3.Re(mk_str(c.upper()))))
+        else:
+            parts.append(z3.Re(mk_str(c)))
+    if not parts:
+        return z3.Re(mk_str(''))
+    return z3.Concat(*parts) if len(parts) > 1 else parts[0]
 
 
 _vars_cache = {}
